@@ -9,6 +9,7 @@ import (
 	"fmt"
 	"os"
 	"path/filepath"
+	"reflect"
 	"sort"
 	"testing"
 
@@ -219,6 +220,19 @@ func checkC16(c CaseC16, info *Info) *Failure {
 		xi2, _ := ms2.XmlIndent(c.Prefix, c.Ind)
 		if !bytes.Equal(xi1, xi2) {
 			return failf("seq-xml-not-deterministic", "indented:\n%q\n%q", xi1, xi2)
+		}
+		// the same MapSeq after a JSON round trip (Copy): sequence numbers are float64 now
+		if cp, cerr := mxj.Map(ms).Copy(); cerr == nil {
+			msj := mxj.MapSeq(cp)
+			snap := copyMap(msj)
+			xj, ej := msj.Xml()
+			xji, _ := msj.XmlIndent(c.Prefix, c.Ind)
+			if ej != nil || !bytes.Equal(xj, x1) || !bytes.Equal(xji, xi1) {
+				return failf("seq-xml-not-deterministic", "after Copy the MapSeq encodes differently:\n%q (%v)\n%q", xj, ej, x1)
+			}
+			if !reflect.DeepEqual(map[string]interface{}(msj), snap) {
+				return failf("receiver-modified", "MapSeq.Xml changed its receiver (float64 sequence numbers)")
+			}
 		}
 		t1, _ := rawTokens(x1)
 		t2, _ := rawTokens(xi1)
